@@ -7,7 +7,8 @@ module, helper module, kernel module) that Loki processes, an untouched driver a
 
   hsub / hsub2      module subroutines (same module as the kernel or a separate file ``hmod``), called with
                     ``!$loki inline`` when flags['pragma']
-  isub / ifun       internal procedures of kern (host association)
+  isub / isub2 / ifun   internal procedures of kern (host association); isub2 only with flags['twin_locals']: its local
+                    'zwk' (and hsub / hsub2's) differs in type or shape from the one of the first callee
   hfun / hfun2 / hele   module functions (multi-statement, elemental), used inside larger expressions
   sf1 / sf2         statement functions declared in kern
   cmod parameters   constants imported from a module and local PARAMETERs
